@@ -3,7 +3,7 @@ from mc.props import _cellprop
 from mc.props import _masterprop
 from mc.worlds import cellcfg, cellmon, mastercfg
 
-BUDGET = {'quick': 240, 'thorough': 900}
+BUDGET = {'quick': 240, 'thorough': 2400}
 DAY = 24 * 3600
 
 
